@@ -190,6 +190,90 @@ def dsFdUpdateRoot [Max α] {d k : Nat} (svd : SvdFn α d (k + d)) (sqrt pw : α
     (st : State α d k) (G : Mat α d d) : DsOut α d k :=
   dsFdUpdateRootO pw cfg st (svd (dsB sqrt cfg st G))
 
+/-! ### the numerical guards of `_fd_update_root` (code-shaped; identities under `SvdSpec`, see `Props/C09.lean`) -/
+
+section Guards
+variable [Neg α] [Div α] [LE α] [DecidableLE α]
+
+/-- a boolean mask used as an arithmetic factor (`x *= mask`) -/
+def ind (b : Bool) : α := if b then 1 else 0
+
+/-- the literals `0.99`, `1.01` (unit-norm window) and `0.01` (padding-mass threshold) -/
+structure Guards (α : Type) where
+  lo : α
+  hi : α
+  thr : α
+
+/-- `jnp.linalg.norm(eigvecs, axis=0)` -/
+def colNorm {d k : Nat} (sqrt : α → α) (V : Mat α d k) (a : Fin k) : α := sqrt (sumFin fun i => V i a * V i a)
+
+/-- `safe_normed = (0.99 <= norms) & (norms <= 1.01)` -/
+def safeNormed (g : Guards α) (n : α) : Bool := decide (g.lo ≤ n) && decide (n ≤ g.hi)
+
+/-- `eigvecs *= safe_normed; deflated_eigs *= safe_normed; eigvecs /= where(safe_normed, norms, 1.0)` -/
+def guardNorm {d k : Nat} (sqrt : α → α) (g : Guards α) (V : Mat α d k) (l : Vec α k) : Mat α d k × Vec α k :=
+  (fun i a => V i a * ind (safeNormed g (colNorm sqrt V a)) /
+      (if safeNormed g (colNorm sqrt V a) then colNorm sqrt V a else 1),
+   fun a => l a * ind (safeNormed g (colNorm sqrt V a)))
+
+def absV (x : α) : α := if x < 0 then -x else x
+
+/-- `padding_ix = arange(d) >= padding_start` as a 0/1 factor -/
+def padIx (ps : Nat) (i : Nat) : α := if i < ps then 0 else 1
+
+/-- `padding_mass = norm(eigvecs * padding_ix[:, newaxis], axis=0, ord=1)` -/
+def padMass {d k : Nat} (ps : Nat) (V : Mat α d k) (a : Fin k) : α := sumFin fun i => absV (V i a * padIx ps i.1)
+
+/-- `has_significant_padding = padding_mass > 0.01; eigvecs *= 1 - hsp; deflated_eigs *= 1 - hsp` -/
+def guardPad {d k : Nat} (g : Guards α) (ps : Nat) (V : Mat α d k) (l : Vec α k) : Mat α d k × Vec α k :=
+  (fun i a => V i a * (1 - ind (decide (g.thr < padMass ps V a))),
+   fun a => l a * (1 - ind (decide (g.thr < padMass ps V a))))
+
+/-- `_fd_update_root` WITH its guards, given the SVD output of `dsB` (this is what `drv_c09` executes) -/
+def dsFdUpdateRootG [Max α] {d k : Nat} (sqrt pw : α → α) (g : Guards α) (cfg : DsCfg α) (st : State α d k)
+    (o : SvdOut α d) : DsOut α d k :=
+  let new := stepO k cfg.β st.t o
+  let tail := if 0 < new.t then new.t else 0
+  let n1 := guardNorm sqrt g new.V new.l
+  let n2 := guardPad g cfg.ps n1.1 n1.2
+  -- `upshifted = (square(top_eigs) + tail*decay) * (deflated_eigs > 0)`, then `where(upshifted <= 0, 0, upshifted**alpha)`
+  let ups : Vec α k := fun a => (sAt o.s a.1 * sAt o.s a.1 + cfg.β * st.t) * ind (decide (0 < n2.2 a))
+  let out : DsOut α d k :=
+    { st := { V := n2.1, l := n2.2, t := tail }
+      inverted := fun a => if ups a ≤ 0 then 0 else pw (ups a)
+      const := if 0 < new.t then pw new.t else 0
+      hasZeros := ((List.finRange k).any fun a => decide (n2.2 a ≤ 0)) || decide (tail ≤ 0) }
+  if cfg.ps = 0 then
+    { st := State.zero d k, inverted := fun _ => 0, const := 0, hasZeros := false }
+  else out
+
+end Guards
+
+/-! ### the packed state and the cut of the public optimizer (known finding K5) -/
+
+/-- `_fd_low_rank_pack` as an index table (`D` rows, `k+2` columns), with the `.at[].set` order of the code:
+eigvecs, inverted eigenvalues `[:k, -2]`, const `[0, -1]`, tail `[1, -1]`, eigenvalues `[-k:, -1]`, flag `[-1, -2]` -/
+def packN (D k : Nat) (V : Nat → Nat → α) (l inv : Nat → α) (const tail flag : α) (i j : Nat) : α :=
+  if j < k then V i j
+  else if j = k then (if i = D - 1 then flag else if i < k then inv i else 0)
+  else (if D - k ≤ i then l (i - (D - k)) else if i = 1 then tail else if i = 0 then const else 0)
+
+/-- what the public optimizer keeps of a statistic of true dimension `dim`: `p[:dim, :k+2]`, re-padded with zero
+rows to `max_size = D` before the next update (`pad_and_maybe_zero_preconditioners`) -/
+def cutRepad (dim : Nat) (P : Nat → Nat → α) (i j : Nat) : α := if i < dim then P i j else 0
+
+/-- `_fd_low_rank_unpack`: eigvecs `[:, :k]`, eigenvalues `[-k:, -1]`, tail `[1, -1]` -/
+def unpackState (D k : Nat) (P : Nat → Nat → α) : State α D k :=
+  { V := fun i a => P i.1 a.1, l := fun a => P (D - k + a.1) (k + 1), t := P 1 (k + 1) }
+
+def packState {D k : Nat} (st : State α D k) (inv : Vec α k) (const flag : α) : Nat → Nat → α :=
+  packN D k (fun i j => if h : i < D ∧ j < k then st.V ⟨i, h.1⟩ ⟨j, h.2⟩ else 0)
+    (fun a => if h : a < k then st.l ⟨a, h⟩ else 0) (fun a => if h : a < k then inv ⟨a, h⟩ else 0) const st.t flag
+
+/-- the sketch state the next public update starts from -/
+def publicReload {D k : Nat} (dim : Nat) (st : State α D k) (inv : Vec α k) (const flag : α) : State α D k :=
+  unpackState D k (cutRepad dim (packState st inv const flag))
+
 /-! ### Tearfree Sketchy: `_update_axis` (stores ROOTS of the covariance eigenvalues) -/
 
 structure SkState (α : Type) (d k : Nat) where
